@@ -86,7 +86,18 @@ impl<'a, D: DataT> Ctx<'a, D> {
 
     /// Add a new filter binding.
     fn cons_fun(mut self, (f, ctx): (Id, Self)) -> Self {
-        self.vars.0 = self.vars.0.cons(Bind::Fun((f, ctx.vars)));
+        // if `f` merely refers to a filter argument, like `g` in `def f(g): ... f(g)`,
+        // bind the closure that it refers to instead of a closure around it;
+        // otherwise, every recursive call would make the chain of closures longer
+        let fun = match &ctx.lut().terms[f.0] {
+            Ast::Var(v) => match ctx.vars.get(*v) {
+                Some(Bind::Fun(fun)) => Some(fun.clone()),
+                _ => None,
+            },
+            _ => None,
+        };
+        let fun = fun.unwrap_or((f, ctx.vars));
+        self.vars.0 = self.vars.0.cons(Bind::Fun(fun));
         self
     }
 
